@@ -38,7 +38,8 @@ StrictFromEnv == IOEnv.STRICT_CMDLINE = "1"
 FirstRunFromEnv == IOEnv.FIRSTRUN_READS_CMDLINE = "1"
 
 Range(s) == { s[j] : j \in 1..Len(s) }
-Sig(x) == [core |-> x[Core].st, corever |-> x[Core].ver, cmdl |-> x[Cmdl].st, cmdlver |-> x[Cmdl].ver]
+Sig(x) == [core |-> x[Core].st, corever |-> x[Core].ver, cmdl |-> x[Cmdl].st, cmdlver |-> x[Cmdl].ver,
+           mfile |-> IF MFile \in DOMAIN x THEN x[MFile].st ELSE "none"]
 
 -----------------------------------------------------------------------------
 (* SpecModel: Init and Step of BuildDirCrash, reporting instead of stopping *)
